@@ -230,6 +230,13 @@ def run(ctx):
         if i % 4 == 3:
             case = gen_mol.polymer_case(rng)          # equally named beads of different composition (end / middle units)
             case.setdefault('nfrag', 2)
+        elif i % 12 == 5:
+            # molecules that are single atoms only (ions, one or several, unbonded): RDKit embeds a lone atom at the origin
+            ions = rng.sample(['[Na+]', '[Cl-]', '[K+]', '[F-]', '[Br-]'], rng.randint(1, 2))
+            case = {'kind': 'ions', 'all_atom': True, 'legacy': True, 'nfrag': len(ions),
+                    's': '{' + '.'.join('[#I%d]' % k for k in range(len(ions))) + '}.{' +
+                         ','.join('#I%d=%s' % (k, t) for k, t in enumerate(ions)) + '}'}
+            ctx.feature('single-atom-molecules')
         elif i % 6 == 1:
             # several charged and neutral atoms of the same element in one molecule, in any order
             case = gen_mol.cut_case(rng, nmin=4, nmax=9, aromatic_p=0.0, charged_p=0.5, hetero_p=0.5)
@@ -261,9 +268,17 @@ def run(ctx):
             aa = reorder(aa, order)
             ctx.feature('shuffled-node-order')
         zeroed = set()
+        negative = set()
         for nn in aa.nodes:
             if rng.random() < 0.3:
-                w = rng.choice([0.5, 2.0, 0.25, 3.0, 0.0])
+                w = rng.choice([0.5, 2.0, 0.25, 3.0, 0.0, -0.5])
+                if w < 0:
+                    # a legal negative weight; at most one per bead and only in beads of three or more atoms, so that the
+                    # total weight stays positive
+                    if any(k in negative or k in zeroed for k in aa.nodes[nn]['fragid']) or \
+                            any(len(cg.nodes[k]['graph']) < 3 for k in aa.nodes[nn]['fragid']):
+                        continue
+                    negative.update(aa.nodes[nn]['fragid'])
                 if w == 0.0:
                     # a legal ';0' annotation; at most one atom per bead so that the total weight stays positive
                     if any(k in zeroed for k in aa.nodes[nn]['fragid']) or any(len(cg.nodes[k]['graph']) < 2 for k in aa.nodes[nn]['fragid']):
